@@ -212,8 +212,43 @@ func TestVerifC18Api(t *testing.T) {
 		goFail := ""
 		anyOK := false
 		nops := 2 + r.Intn(6)
+		// "cover, then uncover" (one history in four): a broad entry, a narrower one at or below
+		// it, then the broad one removed — forced[i] = the call and key of step i
+		type forcedCall struct {
+			x int
+			k string
+		}
+		forced := map[int]forcedCall{}
+		if r.Intn(4) == 0 {
+			d := strings.TrimPrefix(pool[r.Intn(len(pool))], "*.")
+			broad := d
+			if r.Intn(2) == 0 {
+				broad = "*." + d
+			}
+			narrow := []string{"www." + d, "*.ads." + d, "a.b." + d, "*." + d, d}[r.Intn(5)]
+			at := r.Intn(2)
+			if nops < at+3 {
+				nops = at + 3
+			}
+			forced[at] = forcedCall{0, vC18Spell(r, broad)}
+			forced[at+1] = forcedCall{[]int{0, 6}[r.Intn(2)], vC18Spell(r, narrow)}
+			forced[at+2] = forcedCall{[]int{4, 8}[r.Intn(2)], vC18Spell(r, broad)}
+		}
 		for i := 0; i < nops; i++ {
-			switch x := r.Intn(10); {
+			x := r.Intn(10)
+			fk := ""
+			if fc, ok := forced[i]; ok {
+				x, fk = fc.x, fc.k
+			}
+			pick := func() string {
+				if fk != "" {
+					k := fk
+					fk = ""
+					return k
+				}
+				return pick()
+			}
+			switch {
 			case x < 4:
 				k := pick()
 				code, out := vC18Call(a, http.MethodGet, "/api/v1/block/set/"+url.PathEscape(k), nil, token)
